@@ -83,13 +83,16 @@ MANIFEST = {
 }
 LEAN_MODULES = ["CoapVerif.Props.C18"]
 NAMESPACE = "Coap.C18"
+# clean (exit 0) at seeds 1..3 quick on 2026-09-28 with dly / tcp and the delayed-send scripts (E0 / E1)
 REQUIRED_THEOREMS = ["failure_atomic", "no_leak_on_failure", "send_consumes_pdu", "send_error_keeps_slot", "next_op_succeeds",
                      "alloc_count_matches", "ledger_replay", "script_ledger_ok", "script_verdict",
                      "observer_refs_balanced", "observer_refs_count", "add_observer_spec", "createSub_spec", "deleteObserver_spec",
                      "pduDuplicate_live", "addObserver_balanced", "add_observer_succeeds_with_memory",
                      "obs_token_cnt_within_list", "track_realloc_failure_atomic", "lg_crcv_ledger_sound", "lg_srcv_ledger_sound",
                      "lg_srcv_failure_drops_state", "lg_srcv_restart_succeeds", "lg_crcv_new_succeeds_with_memory",
-                     "lg_srcv_setup_failure_atomic", "lg_srcv_uri_path_failure"]
+                     "lg_srcv_setup_failure_atomic", "lg_srcv_uri_path_failure",
+                     "send_pdu_consumed_exactly_once", "send_delayed_iff", "delayed_send_node_failure_releases_once",
+                     "delayed_send_succeeds_with_memory", "connected_drain_spec", "drain_reqs_replays"]
 RULE = ("(1) helper-layer scripts `ahelp k1 k2 <ops>`: random sequences (4..16 calls) of coap_pdu_init / add_token / add_option "
         "(ascending numbers, lengths on both sides of 12/13, 268/269) / add_data / pdu_resize / pdu_check_resize / delete_pdu / "
         "new_optlist+insert_optlist / add_optlist_pdu / delete_optlist / new_string|str_const|bin_const / delete / coap_send "
@@ -184,7 +187,7 @@ B1O_PAIR_CAP = 1500     # ... per generated b1o.<order> / b1u.<pairs> scenario (
 # a seeded sample keeps the thorough tier inside its 30 minutes
 SCN_PAIR_CAP = {"oscobs": 8000, "echo": 6000}
 SCENARIOS = ["uri", "pdu", "rr", "b1", "b2", "obs", "setup", "osc", "h508", "wkc", "b1raw", "b2raw", "obsblk", "cache", "async", "obsre",
-             "obsfetch", "oscobs", "echo", "xtok"]
+             "obsfetch", "oscobs", "echo", "xtok", "dly", "tcp"]
 # parametrised scenario b1o.<digits>: the five hand-built Block1 requests of b1raw in a generated order (repeats allowed);
 # these two always run (the final block early, and again before the gap is filled / a repeated middle block, a block after the end)
 B1O_FIXED = ["b1o.0442130", "b1o.4400123312"]
@@ -213,6 +216,8 @@ EXPECT0 = {
     "oscobs": "subs1,notify1,subs1,notify1,cancel1,subs0,notify0,req5,rsp5,c2.05,c2.05,c2.05,c2.05,c2.05,nack0,body0/0,put0/0",
     "echo": "subs1,notify1,cancel1,subs0,req11,rsp6,c2.05,c2.05,c2.05,c2.05,c2.05,c2.05,nack0,body0/0,put0/0",
     "xtok": "req2,rsp2,c2.05,c2.05,nack0,body0/0,put0/0",
+    "dly": "dq2,dq0,dq2,dq0,req7,rsp7,c2.05,c2.05,c2.05,c2.05,c2.05,c2.05,c2.05,nack0,body0/0,put0/0",
+    "tcp": "sess11,est11/2,tput4/0,srvs2,up2,req7,rsp7,c2.04,c2.04,c2.04,c2.05,c2.04,c2.05,c2.05,nack0,body0/0,put0/0",
     "obsfetch": "subs1,notify1,subs2,notify1,cancel1,subs1,cancel1,subs0,notify0,req7,rsp7,c2.05,c2.05,c2.05,c2.05,c2.05,c2.05,c2.05,nack0,body0/0,put0/0",
 }
 
@@ -341,7 +346,31 @@ def gen_script(rng):
     # after more options / a payload (a further subscription; the payload is copied), tokens on both sides of 8/12/13/268/269
     obs_mode = rng.random() < 0.35
     obs_toks = [rng.choice([0, 1, 2, 4, 8]), rng.choice([1, 3, 8, 9, 12, 13]), rng.choice([5, 200, 268, 269, 300])]
+    # delayed-send scripts (about a third): several sends in one script, each with a PDU of its own, so that a CON finds the NSTART
+    # slot taken (coap_session_delay_pdu: the delay-queue node is one more request that can fail), the session not yet
+    # established (E0: every message is delayed, NON included) and coap_session_connected draining the queue (E1), with the
+    # socket write working or failing
+    dly_mode = not obs_mode and rng.random() < 0.45
     for _ in range(n):
+        if dly_mode and rng.random() < 0.6:
+            c = rng.random()
+            if c < 0.62:
+                ops.append("I%d" % rng.choice([0, 8, 64, 300, 1152]))
+                bound += 2
+                if rng.random() < 0.3:
+                    ops.append("T%d" % rng.choice([1, 4, 8, 8, 9]))
+                    bound += 1
+                ops.append(rng.choice(["Vc", "Vc", "Vc", "Vn"]))
+                have_pdu = False
+                bound += 1
+            elif c < 0.80:
+                ops.append(rng.choice(["E0", "E1", "E1"]))
+            elif c < 0.90:
+                ops.append(rng.choice(["W0", "W0", "W1"]))
+            else:
+                ops.append(rng.choice(["Vc", "Vn", "K"]))
+                bound += 1
+            continue
         if obs_mode and rng.random() < 0.4:
             if rng.random() < 0.7:
                 ops.append("A%d" % rng.choice(obs_toks))
@@ -606,6 +635,11 @@ def symptoms(c):
         what["retry"] = ("coap_cancel_observe failed because one of its own allocation requests failed, and the SAME call made again "
                          "with memory available fails too while the server still holds the subscription: the observation can no "
                          "longer be cancelled through the API")
+    if re.search(r"(^|,)deaf\d", out):
+        what["deaf"] = ("a TCP session that is still established is no longer served after the failure hit ANOTHER session "
+                        "(answered/asked: %s)" % re.search(r"deaf(\d+/\d+)", out).group(1))
+    if scn == "tcp" and re.search(r"tput\d+/[1-9]", out):
+        what["body"] = "a PUT handler on a TCP session was given a payload that is not the payload sent (%s)" % re.search(r"tput\d+/\d+", out).group(0)
     m = re.search(r"body(\d+)/(\d+),put(\d+)/(\d+)", out)
     if m and (int(m.group(2)) or int(m.group(4))):
         what["body"] = "the application was handed a truncated or wrong body as if it were complete (%s)" % m.group(0)
